@@ -58,6 +58,10 @@ def make_classes():
             self.family, self.arg, self.real_apply = family, arg, real_apply
             self.native_calls = []  # (ops tuple, n_qubits)
             self.fail_at = None
+            # a back-end may evolve the buffer it is handed in place (legal: every answer it returns is correct);
+            # the harness allows it only when the buffer is the base class's own default state, never the caller's array
+            self.inplace = False
+            self.inplace_ok = False
 
         def arm(self, fail_at=None):
             self.fail_at = None if fail_at is None else len(self.native_calls) + fail_at
@@ -85,7 +89,18 @@ def make_classes():
         def _get_wavefunction_from_native_circuit(self, circuit, initial_state):
             k = len(self.native_calls)
             self.native_calls.append((tuple(circuit.operations), circuit.n_qubits))
-            if self.fail_at is not None and k == self.fail_at:
+            failing = self.fail_at is not None and k == self.fail_at
+            if self.inplace and self.inplace_ok:
+                buf = np.asarray(initial_state, dtype=complex)  # the received buffer itself when it is complex already
+                ops = list(circuit.operations)
+                if failing:
+                    self.fail_at = None
+                    half = refmodel.run_circuit(ops[: max(1, len(ops) // 2)], circuit.n_qubits, np.array(buf))
+                    buf[...] = half  # died part-way: the buffer is left half-evolved
+                    raise BackendFault(f"simulated native simulator failure on invocation {k}")
+                buf[...] = refmodel.run_circuit(ops, circuit.n_qubits, np.array(buf))
+                return buf
+            if failing:
                 self.fail_at = None
                 raise BackendFault(f"simulated native simulator failure on invocation {k}")
             state = initial_state
